@@ -7,6 +7,7 @@ import Qco.Spec.File
 import Qco.Train.WFc
 import Qco.Op.Decomp
 import Qco.Glue.Auto
+import Qco.Glue.Cli
 import Qco.Op.Comp
 import Qco.DType.Timestamps
 namespace Qco.Driver
@@ -441,6 +442,10 @@ def answer (line : String) : String :=
   | "cops" :: args => cmdCops args
   | "ast" :: args => cmdAst args
   | "ts" :: args => cmdTs args
+  | "cli" :: "rechunk" :: cs :: lens =>
+    " ".intercalate ((Glue.rechunk cs.toNat! (lens.map fun l => List.replicate l.toNat! 0)).map fun c => toString c.length)
+  | "cli" :: "limit" :: k :: lens =>
+    toString (Glue.limitOut (lens.map fun l => List.replicate l.toNat! 0) k.toNat!).length
   | "auto" :: sizes => toString (Glue.pickOrder (sizes.map String.toNat!))
   | "map" :: args => cmdMap args
   | "mapu" :: args => cmdMapU args
